@@ -18,10 +18,10 @@
 #define IMG "/vmem/c17.img"
 #define BTAG 200
 
-enum { S_H, S_HSYNC, S_V, S_SD, S_GR, S_AN, S_HSPEC, S_VATTR, S_SDCHUNK, S_GRPAL, S_HNEWREF, S_NSESS };
+enum { S_H, S_HSYNC, S_V, S_SD, S_GR, S_AN, S_HSPEC, S_VATTR, S_SDCHUNK, S_GRPAL, S_HNEWREF, S_HPROMOTE, S_NSESS };
 static const char *sessname[] = {"H-elements", "H-elements+midsync", "Vdata+Vgroup", "new-SDS", "new-GR-image", "annotations",
                                  "H-linked+compressed-elements", "Vdata+Vgroup-with-attributes", "new-chunked+unlimited-SDS", "new-GR-image+palette+attribute",
-                                 "H-elements-under-Hnewref-numbers"};
+                                 "H-elements-under-Hnewref-numbers", "H-new-appendable-element-promoted-after-Hsync"};
 
 /* ------------------------------------------------------------ flush bookkeeping */
 #define MAXSEQ 512
@@ -282,6 +282,37 @@ run_session(int sess, int nnew)
                         return -1;
                 }
             }
+            API("Hclose", 1);
+            return Hclose(fid);
+        }
+        case S_HPROMOTE: {
+            /* a new appendable element, more new elements behind it, Hsync, then the first one grows: it is no longer last in
+               the file and is turned into linked blocks (its descriptor is deleted and created again) */
+            API("Hopen", 0);
+            int32 fid = Hopen(PATH, OPENMODE[g_mode], 0);
+            if (fid == FAIL)
+                return -1;
+            API("Hstartaccess", 0);
+            int32 aid = Hstartaccess(fid, 323, 1, DFACC_WRITE | DFACC_APPENDABLE);
+            if (aid == FAIL)
+                return -1;
+            API("Hwrite", 0);
+            if (Hwrite(aid, 6, d) != 6)
+                return -1;
+            for (int i = 0; i < nnew; i++) {
+                API("Hputelement", 0);
+                if (Hputelement(fid, 324, (uint16)(i + 1), d, 5) != 5)
+                    return -1;
+            }
+            API("Hsync", 1);
+            if (Hsync(fid) == FAIL)
+                return -1;
+            API("Hwrite", 0);
+            if (Hwrite(aid, 7, d) != 7)
+                return -1;
+            API("Hendaccess", 0);
+            if (Hendaccess(aid) == FAIL)
+                return -1;
             API("Hclose", 1);
             return Hclose(fid);
         }
@@ -576,6 +607,9 @@ typedef struct {
 static case_t cases[MAXCASES];
 static int    ncases;
 
+static unsigned g_base_tr[512]; /* (tag << 16 | ref) of every descriptor of the base file */
+static int      g_nbase_tr;
+
 static void
 verify_image(long p, long nlog, int nbase, int mixed, uint64_t want, int in_flush, const char *apiname)
 {
@@ -587,8 +621,28 @@ verify_image(long p, long nlog, int nbase, int mixed, uint64_t want, int in_flus
     memset(&fc, 0, sizeof fc);
     char sig[120];
     if (fc_parse(&fc, bytes, sz) != 0) {
-        snprintf(sig, sizeof sig, "image-malformed:%s", in_flush ? "in-flush" : "pre-flush");
-        mc_violation(sig, "after %ld of %ld writes (crash during %s): file is not well-formed: %s", p, nlog, apiname, fc.err[0]);
+        /* Inside the flush a descriptor of a NEW object may already be on disk while the space it reserves at the end of the
+           file (the unwritten rest of a linked block) has not been extended yet: such an object counts as "may be missing",
+           which the property allows. Anything else - and anything about a descriptor the base file already had - is damage. */
+        int tolerated = 0;
+        for (int e = 0; e < fc.nerr && e < 8; e++) {
+            unsigned t = 0, r = 0;
+            int      isnew = 1;
+            if (in_flush && strstr(fc.err[e], "beyond file size") && sscanf(fc.err[e], "descriptor (%u,%u)", &t, &r) == 2) {
+                for (int b = 0; b < g_nbase_tr; b++)
+                    if (g_base_tr[b] == ((t << 16) | r))
+                        isnew = 0;
+                if (isnew) {
+                    tolerated++;
+                    continue;
+                }
+            }
+            snprintf(sig, sizeof sig, "image-malformed:%s", in_flush ? "in-flush" : "pre-flush");
+            mc_violation(sig, "after %ld of %ld writes (crash during %s): file is not well-formed: %s", p, nlog, apiname, fc.err[e]);
+            break;
+        }
+        if (tolerated)
+            mc_count("inflush_images_with_new_object_space_not_extended", 1);
     }
     fc_free(&fc);
     free(bytes);
@@ -635,6 +689,9 @@ run_case(long idx, void *ctx)
     }
     /* "old end of file" = end of every previously stored object and descriptor block (the closing library leaves one
        padding byte after it that belongs to no object) */
+    g_nbase_tr = 0;
+    for (int i = 0; i < fb.ndd && g_nbase_tr < 512; i++)
+        g_base_tr[g_nbase_tr++] = ((unsigned)fb.dd[i].tag << 16) | fb.dd[i].ref;
     old_eof = 0;
     for (int i = 0; i < fb.ndd; i++)
         if (fb.dd[i].off >= 0 && fb.dd[i].len >= 0 && (long)fb.dd[i].off + fb.dd[i].len > old_eof)
@@ -677,7 +734,7 @@ run_case(long idx, void *ctx)
     mc_count("sessions", 1);
     mc_count("log_writes", nlog);
     /* every prefix */
-    int  clause2  = c->sess == S_H || c->sess == S_HSYNC || c->sess == S_V || c->sess == S_HSPEC || c->sess == S_VATTR || c->sess == S_HNEWREF;
+    int  clause2  = c->sess == S_H || c->sess == S_HSYNC || c->sess == S_V || c->sess == S_HSPEC || c->sess == S_VATTR || c->sess == S_HNEWREF || c->sess == S_HPROMOTE;
     long nprefix  = 0;
     vfs_copy(BASECOPY, IMG);
     vfile *img = vfs_lookup(IMG);
@@ -780,7 +837,7 @@ C17_main(const char *tier, const char *replay)
                             continue;
                         if (mixed >= 2 && (sess == S_SD || sess == S_GR || sess == S_SDCHUNK || sess == S_GRPAL || bi == 5))
                             continue;
-                        if (mixed == 3 && !(sess == S_H || sess == S_HNEWREF || sess == S_V))
+                        if (mixed == 3 && !(sess == S_H || sess == S_HNEWREF || sess == S_V || sess == S_HPROMOTE))
                             continue;
                         /* SD sessions open through SDstart(DFACC_RDWR) only */
                         int nmodes = (sess == S_SD || sess == S_SDCHUNK) ? 1 : 3;
